@@ -97,6 +97,43 @@ def random_scenarios(rng, n, hooks_fn=None, fault_p=0.06, syscall_p=0.0, allow=(
     return scs, refs
 
 
+def stack_discipline_scenarios(rng):
+    """programs in which the record of calls and the stack pointer go out of step - deterministically, not by luck:
+    a return address popped by hand, a return to a pushed address, calls abandoned and resumed"""
+    P = []
+    # call L; L: pop rax; ret                      -> the RET finds the stack empty although one call is on record
+    P.append([{"t": "call32", "tgt": 1}, {"t": "pop_rax"}, {"t": "ret"}, {"t": "nop"}])
+    # mov rax, T; push rax; ret; nop; T: nop       -> the RET returns to T although no call is on record
+    P.append([{"t": "mov_rax", "imm": 0, "_fix": 4}, {"t": "push_rax"}, {"t": "ret"}, {"t": "nop"}, {"t": "nop"}, {"t": "ret"}])
+    # call f; nop; jmp end; f: ret                 -> balanced
+    P.append([{"t": "call32", "tgt": 3}, {"t": "nop"}, {"t": "jmp8", "tgt": 4}, {"t": "ret"}])
+    # call f; ret(top); f: pop rcx; push rcx; ret  -> return address taken off and put back
+    P.append([{"t": "call32", "tgt": 2}, {"t": "ret"}, {"t": "pop_rcx"}, {"t": "push_rax"}, {"t": "pop_rax"}, {"t": "mov_rax", "imm": 1}, {"t": "nop"}])
+    # call f; f: call g; g: pop rax; pop rax; ret  -> two calls on record, stack empty
+    P.append([{"t": "call32", "tgt": 1}, {"t": "call32", "tgt": 2}, {"t": "pop_rax"}, {"t": "pop_rax"}, {"t": "ret"}, {"t": "nop"}])
+    # call f; nop; ret(top); f: call g; ret; g: pop rcx; ret  -> g returns to f's caller
+    P.append([{"t": "call32", "tgt": 3}, {"t": "nop"}, {"t": "ret"}, {"t": "call32", "tgt": 5}, {"t": "ret"}, {"t": "pop_rcx"}, {"t": "ret"}])
+    # two push/ret trampolines in a row
+    P.append([{"t": "mov_rax", "imm": 0, "_fix": 3}, {"t": "push_rax"}, {"t": "ret"}, {"t": "mov_rax", "imm": 0, "_fix": 6}, {"t": "push_rax"}, {"t": "ret"},
+              {"t": "nop"}, {"t": "ret"}])
+    scs = []
+    for k, insns in enumerate(P):
+        for variant in range(3):
+            ins = [dict(i) for i in insns]
+            prog0 = xc.Program([{kk: v for kk, v in i.items() if kk != "_fix"} for i in ins])
+            for i in ins:
+                if "_fix" in i:
+                    i["imm"] = prog0.addr[i.pop("_fix")]
+            p = xc.Program(ins)
+            regs = [rng.getrandbits(64) for _ in xc.GPRS]
+            mx = [None, 30, 3][variant]
+            pre = pre_actions(rng, mx, regs)
+            n = len(ins) + 4
+            scs.append(xc.scenario(f"sd{k}s{variant}", p, pre, [{"op": "step"} for _ in range(n)]))
+            scs.append(xc.scenario(f"sd{k}x{variant}", p, pre, [{"op": "execute"}, {"op": "step"}, {"op": "execute"}]))
+    return scs
+
+
 def mc_phase(wd, tier, hookmode=False):
     consts = {"N": "2" if tier == "quick" else "4"}
     if hookmode:
@@ -127,6 +164,7 @@ def run(tier, seed, prop=PROP):
         n1, s1 = xc.validate(sc1, wd, "mdl", rep, 8, owner=prop)
         q = tier == "quick"
         sc2, refs = random_scenarios(rng, 120 if q else 2500)
+        sc2 += stack_discipline_scenarios(rng)
         n2, s2 = xc.validate(sc2, wd, "rnd", rep, 8 if q else 14, refs=refs, owner=prop)
         kinds = {(i["t"], i.get("cc")) for s in sc2 for i in s["_prog"].insns}
         if prop == PROP:
